@@ -120,6 +120,10 @@ DumpAlphabet(t) ==
   \cup {F2("Cup", t.rows, t.cols), F2("Cup", 1, 2), F2("Decstbm", 2, t.rows), F2("Decstbm", 1, t.rows - 1)}
   \cup {Raw(<<27, 91>>), Raw(<<27, 91, 51>>), Raw(<<27, 91, 63, 50>>), Raw(<<27, 93, 97>>), Raw(<<27, 80, 49>>), Raw(<<27>>), Raw(<<27, 40>>)}
 DumpSizes == {<<3, 3>>, <<2, 2>>}
+(* the histories that lead into the two known-finding classes *)
+DumpKnownAlphabet(t) ==
+  {FS("Decset", <<6>>), F0("Decsc"), F0("Decrc"), F2("Decstbm", 2, t.rows), FS("Decset", <<1047>>), F1("Print", 97), F2("Cup", 1, 1)}
+DumpKnownResizes(t) == {<<c, r>> \in {<<2, 3>>} : <<c, r>> # <<t.cols, t.rows>>}
 DumpSizesQ == {<<3, 3>>}
 DumpResizes(t) == {}
 DumpFills == {<<>>, <<65, 65, 65, 65, 13, 10, 66>>}
